@@ -4,6 +4,7 @@ package verifharness
 
 import (
 	"fmt"
+	"hash/fnv"
 	"math/rand/v2"
 	"sort"
 	"strings"
@@ -327,7 +328,26 @@ func c05Overlap(t *testing.T, run *Run, idx int, rng *rand.Rand) {
 func c05Exec(w *World, op c05Op, id string) c05Out {
 	switch op.Kind {
 	case "deploy":
-		so := server.ServiceOptions{TLSRedirect: true, Hosts: op.Hosts, PathPrefixes: op.Prefixes}
+		// the operator may spell a prefix with or without leading and trailing slashes: the same pair
+		var spelled []string
+		for i, p := range op.Prefixes {
+			h := fnv.New32a()
+			fmt.Fprint(h, op.Name, op.Hosts, p, i, id)
+			t := strings.Trim(p, "/")
+			switch v := h.Sum32() % 5; {
+			case p == "/":
+				spelled = append(spelled, []string{"/", "", "//", "/", "/"}[v])
+			case v == 1:
+				spelled = append(spelled, t)
+			case v == 2:
+				spelled = append(spelled, "/"+t+"/")
+			case v == 3:
+				spelled = append(spelled, t+"/")
+			default:
+				spelled = append(spelled, p)
+			}
+		}
+		so := server.ServiceOptions{TLSRedirect: true, Hosts: op.Hosts, PathPrefixes: spelled}
 		if len(op.Hosts) == 1 && op.Hosts[0] == "" {
 			so.Hosts = nil
 		}
